@@ -67,7 +67,8 @@ def contexts(c, cx, rng=None):
         {"n": "Lam", "body": cx, "arg": t1}, {"n": "Lam", "body": X, "arg": c},
         {"n": "Def", "body": cx, "arg": t2}, {"n": "Def", "body": {"n": "Add", "a": cx, "b": X}, "arg": c},
         {"n": "F", "a": c}, {"n": "W", "a": c}, {"n": "Sh", "a": c, "form": "def"}, {"n": "Sh", "a": c, "form": "lam"},
-        {"n": "Cls", "body": cx, "arg": t2}, {"n": "Add", "a": {"n": "Sh", "a": t1, "form": "def"}, "b": c}, {"n": "Add", "a": {"n": "W", "a": c}, "b": t1},
+        {"n": "Sh", "a": c, "form": "dflt"}, {"n": "Add", "a": {"n": "Sh", "a": t1, "form": "dflt"}, "b": c},
+        {"n": "Cls", "body": cx, "arg": t2}, {"n": "Cls", "body": cx, "arg": t2, "form": "comp"}, {"n": "Add", "a": {"n": "Sh", "a": t1, "form": "def"}, "b": c}, {"n": "Add", "a": {"n": "W", "a": c}, "b": t1},
         C("R", c), C("N", c), C("S", c, kw=t1), C("N", t1, kw=c),
         C("R", t1, kw=C("N", t2, kw=c)), C("N", C("R", c), kw=C("S", t2, kw=t1)),
         {"n": "Add", "a": B(3), "b": c}, {"n": "Add", "a": c, "b": B(3)}, C("R", B(3)), C("N", t1, kw=B(3)),
@@ -95,8 +96,8 @@ def enumerate_programs(tier, seed):
     lvl2 = list(progs)
     for _ in range(n3):
         inner = rng.choice(lvl2)
-        if has_x_free(inner):
-            continue
+        if has_x_free(inner) or "'form': 'comp'" in repr(inner):
+            continue      # (a class statement is evaluated where it stands: only generated as a whole program)
         cx = rng.choice(basex)
         progs.append(rng.choice(contexts(inner, cx)))
     # dedupe
@@ -207,11 +208,19 @@ class Renderer:
                 name = f"shadow{self.nd}"
                 self.prelude.append(f"def {name}(recurse, {self.fname}, v_): return {self.fname}(recurse(v_))")
                 return f"{name}(IDENT, IDENT, {self.r(t['a'])})"
+            if t["form"] == "dflt":
+                if self.only_next:
+                    return f"call_next({self.r(t['a'])})"
+                return f"(lambda v_, recurse=recurse: recurse(v_))({self.r(t['a'])})"
             return f"(lambda recurse, {self.fname}, v_: recurse({self.fname}(v_)))(IDENT, IDENT, {self.r(t['a'])})"
         if n == "Cls":
             self.nd += 1
             name = f"K{self.nd}_"
             body = self.r(t["body"])
+            if t.get("form") == "comp":
+                # the call site sits in a comprehension written directly in the class body (evaluated when the class
+                # statement runs, i.e. where it is written)
+                return self._cls_comp(name, body, t)
             self.prelude.append(f"class {name}: run = lambda self_, x_: {body}")
             return f"{name}().run({self.r(t['arg'])})"
         if n == "F":
@@ -220,6 +229,16 @@ class Renderer:
             self.nw += 1
             return f"(w{self.nw}_ := {self.r(t['a'])})"
         raise ValueError(n)
+
+
+def _cls_comp(self, name, body, t):
+    # class K: val = sum([<body> for x_ in [<arg>]])   - a statement: goes to the prelude, in evaluation position
+    arg = self.r(t["arg"])
+    self.prelude.append(f"class {name}: val = sum([{body} for x_ in [{arg}]])")
+    return f"{name}.val"
+
+
+Renderer._cls_comp = _cls_comp
 
 
 WRAPPERS = ["plain", "self", "closure", "defaults", "generator", "future"]
@@ -300,6 +319,8 @@ def to_next(t):
         t = {k: to_next(v) for k, v in t.items()}
         if t.get("n") in ("C", "CX"):
             t["site"] = "N"
+        if t.get("n") == "Sh" and t.get("form") == "dflt":
+            return C("N", t["a"])      # (a captured recurse has no call_next counterpart: a plain call_next site)
         return t
     if isinstance(t, list):
         return [to_next(x) for x in t]
